@@ -12,24 +12,19 @@ import Ggql.Props.Locks
 import Ggql.Gen.Locks
 namespace Ggql.LockTable
 
-/-- the unlocked accesses of the pinned tree (D26): `regField` re-reads `obj.meta` after releasing
+/-- the unlocked accesses of the first commit (D26, repaired): `regField` re-read `obj.meta` after releasing
 `obj.mu`, while `assureType` writes it under `obj.mu` on every request -/
 def d26Sites : List (String × Field × Bool) := [("regField", .objMeta, false)]
 
-/-- **C12_lockset.**  Either every request-reachable access to a lazily written cell holds the cell's
-mutex (then `lockset_race_free` applies to every execution), or the unguarded accesses are exactly the
-listed sites of D26. -/
-theorem C12_lockset :
-    unguardedSites Gen.lockTable = [] ∨ unguardedSites Gen.lockTable = d26Sites := by
-  first
-  | exact Or.inl (by decide)
-  | exact Or.inr (by decide)
+/-- **C12_lockset.**  On the source as it is now every request-reachable access to a lazily written cell
+holds the cell's mutex, so `lockset_race_free` applies to every execution: D26 is repaired and a return of
+an unguarded access breaks this obligation. -/
+theorem C12_lockset : unguardedSites Gen.lockTable = [] := by decide
 
 /-- the exemption of `regField`'s `fd.args` write rests on this syntactic fact of the current source -/
 theorem C12_args_write_setup_only : Gen.regFieldArgsSetupOnly = true := by decide
 
-/-- every write by a request thread to a lazily initialised cell is made under the cell's mutex — on
-the pinned tree too: D26 is a read -/
+/-- every write by a request thread to a lazily initialised cell is made under the cell's mutex -/
 theorem C12_writes_guarded :
     ((obligations Gen.lockTable).filter (·.write)).all Access.guarded = true := by decide
 
